@@ -138,6 +138,7 @@ func (c *canon) findTables(body *ast.BlockStmt) {
 
 func (c *canon) stmts(list []ast.Stmt) []ast.Stmt {
 	list = c.splitBoolReturns(list)
+	list = c.assertGuardToTypeSwitch(list)
 	for i, s := range list {
 		list[i] = c.stmt(s)
 		if f, ok := list[i].(*ast.ForStmt); ok {
@@ -285,6 +286,66 @@ func innerLoop(n ast.Node, inner bool) bool {
 		return true
 	}
 	return false
+}
+
+// assertGuardToTypeSwitch: `v, ok := E.(T); if !ok { B; return }; REST` becomes
+// `switch v := E.(type) { case T: REST; default: B; return }` (ok must not be read in B or REST).
+func (c *canon) assertGuardToTypeSwitch(list []ast.Stmt) []ast.Stmt {
+	for i := 0; i+1 < len(list); i++ {
+		as, ok := list[i].(*ast.AssignStmt)
+		if !ok || as.Tok != token.DEFINE || len(as.Lhs) != 2 || len(as.Rhs) != 1 {
+			continue
+		}
+		ta, ok := ast.Unparen(as.Rhs[0]).(*ast.TypeAssertExpr)
+		if !ok || ta.Type == nil {
+			continue
+		}
+		vid, ok1 := as.Lhs[0].(*ast.Ident)
+		okid, ok2 := as.Lhs[1].(*ast.Ident)
+		if !ok1 || !ok2 || vid.Name == "_" || c.info.Defs[okid] == nil || c.info.Defs[vid] == nil {
+			continue
+		}
+		is, ok := list[i+1].(*ast.IfStmt)
+		if !ok || is.Init != nil || is.Else != nil || len(is.Body.List) == 0 {
+			continue
+		}
+		u, ok := ast.Unparen(is.Cond).(*ast.UnaryExpr)
+		if !ok || u.Op != token.NOT || ObjOf(c.info, u.X) != c.info.Defs[okid] {
+			continue
+		}
+		// the guard must leave: its last statement is a return or a panic
+		switch last := is.Body.List[len(is.Body.List)-1].(type) {
+		case *ast.ReturnStmt:
+		case *ast.ExprStmt:
+			call, isCall := last.X.(*ast.CallExpr)
+			if !isCall || !NoReturnCall(c.info, call) {
+				continue
+			}
+		default:
+			continue
+		}
+		rest := list[i+2:]
+		used := false
+		for _, st := range append(append([]ast.Stmt{}, rest...), is.Body) {
+			ast.Inspect(st, func(n ast.Node) bool {
+				if id, ok := n.(*ast.Ident); ok && c.info.Uses[id] == c.info.Defs[okid] {
+					used = true
+				}
+				return !used
+			})
+		}
+		if used || hasFreeBreak(rest) || hasFreeBreak(is.Body.List) {
+			continue
+		}
+		assign := &ast.AssignStmt{Lhs: []ast.Expr{vid}, TokPos: as.TokPos, Tok: token.DEFINE,
+			Rhs: []ast.Expr{&ast.TypeAssertExpr{X: ta.X, Lparen: ta.Lparen, Type: nil, Rparen: ta.Rparen}}}
+		cc := &ast.CaseClause{Case: as.Pos(), List: []ast.Expr{ta.Type}, Colon: as.Pos(), Body: rest}
+		c.info.Implicits[cc] = c.info.Defs[vid]
+		def := &ast.CaseClause{Case: is.If, Colon: is.If, Body: is.Body.List}
+		ts := &ast.TypeSwitchStmt{Switch: as.Pos(), Assign: assign, Body: &ast.BlockStmt{Lbrace: as.Pos(), List: []ast.Stmt{cc, def}, Rbrace: is.End()}}
+		return append(append([]ast.Stmt{}, list[:i]...), ts)
+	}
+	return list
 }
 
 // splitBoolReturns: `return <comparison or &&/||/! expression>` (one bool result) becomes
